@@ -284,6 +284,7 @@ def WP : Prims where
     cases a <;> simp [isNum]
   other := fun _ _ _ w => (.error "unsupported", w)
   unary := fun _ _ w => (.error "unsupported", w)
+  getIndex := fun _ _ w => (.error "unsupported", w)
 
 def theArg : Arg WP := ⟨.tab, none⟩
 
